@@ -102,7 +102,7 @@ class Scratch:
 
 # --------------------------------------------------------------------------- TLC
 
-_TUPLE_RE = re.compile(r'<<"(VERDICT|JUDGED|INFO|SAMPLE)"')
+_TUPLE_RE = re.compile(r'<<\s*"(VERDICT|JUDGED|INFO|SAMPLE|ORDER)"')
 
 
 def _balanced_tuples(text: str):
@@ -198,12 +198,16 @@ class TlcResult:
             m = re.search(r"Error:.*", out)
             self.error = (m.group(0) if m else f"exit {rc}") + "\n" + out[-1500:]
 
+    @property
+    def temporal_violated(self):
+        return bool(re.search(r"Temporal propert(y|ies) .*violated", self.out))
+
     def tagged(self, tag):
         return [t[1:] for t in self.tuples if t and t[0] == tag]
 
     @property
     def invariant_violated(self):
-        return bool(re.search(r"Invariant \S+ is violated|is violated|Temporal properties were violated", self.out))
+        return bool(re.search(r"Invariant \S+ is violated|is violated|Temporal propert(y|ies) .*violated", self.out))
 
 
 def run_tlc(module: str, cfg: str, env: dict | None = None, workers: int = 1, timeout: int = 1800,
